@@ -346,8 +346,8 @@ def run_engine_fixture(chk, rid="engine-fixture"):
                 chk.ob(rid, f"idiom {name}: {len(res.sites) - len(bad)} of {len(res.sites)} site(s) proved", not bad and bool(res.sites),
                        key=f"idiom|{name}", file=b.file, line=b.lo, fn=b.path,
                        detail="a standard safe idiom is no longer proved: " + "; ".join(s["why"] for s in bad)[:200])
-        chk.floor(rid, "traps", nb, 39)
-        chk.floor(rid, "safe idioms", ng, 26)
+        chk.floor(rid, "traps", nb, 42)
+        chk.floor(rid, "safe idioms", ng, 28)
         # the loop census on its own fixtures
         from ..loops import collect_loops
         lsites, _ = collect_loops(facts, [facts.crates[0]])
@@ -367,7 +367,7 @@ def run_engine_fixture(chk, rid="engine-fixture"):
                        key=f"loopidiom|{name}", file=ss[0]["body"].file, line=ss[0]["line"], fn=ss[0]["body"].path,
                        detail="a standard terminating loop is no longer recognised: " + "; ".join(s["why"] for s in ss if not s["ok"])[:200])
         chk.floor(rid, "loop traps", nlb, 9)
-        chk.floor(rid, "loop idioms", nlg, 6)
+        chk.floor(rid, "loop idioms", nlg, 7)
     finally:
         if "saved_pi" in locals():
             intervals.PARAM_INFO = saved_pi
